@@ -65,7 +65,7 @@ def word_tokens(toks, kind, width, n):
 def run(chk):
     facts = F.load("dbg")
     env = Env(facts)
-    nmax = 8 if chk.tier == "quick" else 12
+    nmax = 12
     chk.trust("core::fmt renders {:0w$x} / {:0w$b} as the zero-padded lower-case hex / binary digits of the value")
     chk.trust("u64::from_str_radix(s,16) returns Ok(v) with v < 16^len for digit strings, accepts a leading '+', Err otherwise (std)")
     chk.assume("format-string literals are read from the source text of the format macro call")
@@ -96,7 +96,7 @@ def run(chk):
             if not bs:
                 chk.refuted("C09.F", "anchor-missing: %s for %s" % (trp, K.adt), "")
                 continue
-            for n in (0, 3, 6, 7) if chk.tier == "quick" else range(0, nmax + 1):
+            for n in (0, 3, 6, 7, 9, 12) if chk.tier == "quick" else range(0, nmax + 1):
                 key = "<%s as %s>::fmt n=%d" % (K.adt, trp.split("::")[-1], n)
                 try:
                     it = env.interp()
